@@ -119,5 +119,37 @@ package util
 //@   requires mkposA[0] == 0 && mkposB[0] == 0 && mergedof(ma, mkposA, a, len(a)) && mergedof(mb, mkposB, b, len(b))
 //@   modifies nothing
 //@   ensures[equal-merged-keys-mean-equal-tuples] forall k int :: 0 <= k && k < len(a) ==> a[k] == b[k]
+//@   canary ensures[vacuity] len(a) < 2
 //@   loop 1: invariant 0 <= i && i <= len(a) && mkposA[i] == mkposB[i] && forall k int :: 0 <= k && k < i ==> a[k] == b[k]
 //@   loop 1: decreases len(a) - i
+
+// Pipeline ids are strings.Join(keys, ","): two tuples of the same arity whose values contain no separator and whose joined
+// ids are equal are equal (the id identifies the tuple). joinedof/nosep: see the strings.Join contract in stdlib.spec.
+//@ ghost var jposA [1099511627776]int
+//@ ghost var jposB [1099511627776]int
+//@ func lemmaJoinedInjective(ma, mb string, a, b []string, c byte, pa, pb []int)
+//@   property C06
+//@   requires len(a) == len(b) && ma == mb
+//@   requires len(pa) == len(a) + 1 && len(pb) == len(a) + 1 && forall i int :: 0 <= i && i <= len(a) ==> pa[i] == jposA[i] && pb[i] == jposB[i]
+//@   requires joinedof(ma, jposA, a, c, len(a)) && joinedof(mb, jposB, b, c, len(b))
+//@   requires forall i int :: 0 <= i && i < len(a) ==> nosep(a[i], c) && nosep(b[i], c)
+//@   modifies nothing
+//@   ensures[equal-ids-mean-equal-tuples] forall k int :: 0 <= k && k < len(a) ==> a[k] == b[k]
+//@   canary ensures[vacuity] len(a) < 2
+//@   loop 1: invariant 0 <= i && i <= len(a) && jposA[i] == jposB[i] && forall k int :: 0 <= k && k < i ==> a[k] == b[k]
+//@   loop 1: decreases len(a) - i
+
+// ==== permanent copies (C06, C19, C12): the result does not share memory with the argument =========================================
+//@ func DeepCopyString(str string) string
+//@   property C06 C19 C12
+//@   modifies nothing
+//@   ensures[private-copy] result == str && !shared(result)
+//@ func DeepCopyStringFromBytes(str []byte) string
+//@   property C06 C19 C12
+//@   modifies nothing
+//@   ensures[private-copy] len(result) == len(str) && (forall i int :: 0 <= i && i < len(str) ==> result[i] == str[i]) && !shared(result)
+//@ func DeepCopyStrings(strList []string) []string
+//@   property C06 C19 C12
+//@   modifies nothing
+//@   ensures[private-copies] len(result) == len(strList) && isfresh(result) && forall i int :: 0 <= i && i < len(strList) ==> result[i] == strList[i] && !shared(result[i])
+//@   loop 1: invariant -1 <= rangeindex && rangeindex < len(strList) && len(destList) == len(strList) && isfresh(destList) && forall i int :: 0 <= i && i <= rangeindex ==> destList[i] == strList[i] && !shared(destList[i])
